@@ -608,7 +608,7 @@ fn run_op(w: &World, op: &IOp, pre: &Snap) -> Outcome {
 // ------------------------------------------------------------------------------------------------
 // Gallina printing
 fn limbs(b: &[u8]) -> Vec<String> {
-    b.chunks(7).map(|c| { let mut x = 0u64; for y in c { x = (x << 8) | *y as u64 } x.to_string() }).collect()
+    b.chunks(7).map(|c| { let mut x = 0u64; for y in c { x = (x << 8) | *y as u64 } format!("{}%uint63", x) }).collect()
 }
 fn zl(b: &[u8]) -> String {
     format!("(B {} [{}])", b.len(), limbs(b).join("; "))
@@ -704,7 +704,7 @@ fn obs(pre: &Snap, post: &Snap, o: &Outcome) -> Vec<String> {
     for p in &o.log {
         enc_bytes(&mut v, p);
     }
-    v
+    v.into_iter().map(|x| if x.ends_with("%uint63") { x } else { format!("{}%uint63", x) }).collect()
 }
 fn coq_world(s: &Snap) -> String {
     let am = cf::list(amap_sorted(&s.amap).iter().map(|(i, k)| format!("({}, {}%N)", zl(k), i)));
